@@ -36,6 +36,9 @@ type child struct {
 	inFlight int32    // lifecycle callbacks currently running
 	started  sync.Map // module name -> true once its start routine succeeded
 
+	launchedInCb sync.Map // work id -> true when a lifecycle routine launched the item itself
+	storming     int32    // a sigstorm step is in progress
+
 	arrivals sync.Map // point|ctx -> *int32
 }
 
@@ -59,7 +62,9 @@ func hold(us int) {
 }
 
 func (c *child) lifecycle(mod, phase string, cb Callback) func() error {
+	var calls int32
 	return func() (err error) {
+		call := int(atomic.AddInt32(&calls, 1))
 		atomic.AddInt32(&c.inFlight, 1)
 		info := ""
 		if phase == "stop" {
@@ -77,8 +82,19 @@ func (c *child) lifecycle(mod, phase string, cb Callback) func() error {
 			c.rec(Event{Kind: phase + "-end", Mod: mod, Info: outcome})
 			atomic.AddInt32(&c.inFlight, -1)
 		}()
+		for _, id := range cb.Launch {
+			if w := c.workByID[id]; w != nil {
+				if _, done := c.launchedInCb.LoadOrStore(id, true); !done {
+					c.launch(mod, w)
+				}
+			}
+		}
 		hold(cb.DurUS)
-		switch cb.Fault {
+		fault := cb.Fault
+		if cb.FaultTimes > 0 && call > cb.FaultTimes {
+			fault = ""
+		}
+		switch fault {
 		case "error":
 			outcome = "error"
 			return fmt.Errorf("%s of %s failed on purpose", phase, mod)
@@ -248,6 +264,9 @@ func (c *child) waitBegan(ids []int, bound time.Duration) bool {
 }
 
 func (c *child) hook(point, ctx string) {
+	if atomic.LoadInt32(&c.storming) != 0 {
+		return // perturbation delays would turn a storm of thousands of signalled microtasks into seconds
+	}
 	key := point + "|" + ctx
 	v, _ := c.arrivals.LoadOrStore(key, new(int32))
 	n := atomic.AddInt32(v.(*int32), 1)
@@ -394,6 +413,9 @@ func RunChild(sc *Scenario) *Result {
 				}
 				for j := range m.Work {
 					w := &m.Work[j]
+					if _, done := c.launchedInCb.Load(w.ID); done {
+						continue
+					}
 					if w.Kind == "hook" {
 						src := w.On
 						if src == "" {
@@ -532,6 +554,28 @@ func RunChild(sc *Scenario) *Result {
 			}
 			time.Sleep(30 * time.Millisecond) // one-sided grace: a wrongly executed task or hook gets the chance to show up
 			c.rec(Event{Kind: "poststop-done"})
+		case "sigstorm":
+			// many signalled microtasks whose done function is called by several goroutines at the same moment
+			for _, n := range st.Mods {
+				m := c.mods[n]
+				if !m.Online() {
+					continue
+				}
+				atomic.StoreInt32(&c.storming, 1)
+				for a := 0; a < st.US; a++ {
+					done := m.SignalHighPriorityMicroTask()
+					start := make(chan struct{})
+					var wg sync.WaitGroup
+					for k := 0; k < 4; k++ {
+						wg.Add(1)
+						go func() { defer wg.Done(); <-start; done() }()
+					}
+					close(start)
+					wg.Wait()
+				}
+				atomic.StoreInt32(&c.storming, 0)
+				c.rec(Event{Kind: "sigstorm-done", Mod: n, Info: fmt.Sprintf("%d attempts", st.US)})
+			}
 		case "sleep":
 			hold(st.US)
 		case "shutdown":
